@@ -533,6 +533,8 @@ class Table(tsdb.Relation):
         else:
             if index < 0:
                 index = len(self._rows) + index
+                if index < 0:
+                    raise IndexError('table index out of range')
             self._rows[index]  # check for IndexError
             values = [value]
             index = slice(index, index + 1)
